@@ -27,6 +27,9 @@ fuzz_target!(|data: &[u8]| {
         }
         assert_eq!(pos, *n, "C07 misread: frame does not account for the consumed length");
     }
+    if let (Ok(n), Ok((_, m))) = (&rc, &rp) {
+        assert_eq!(n, m, "C07 check/parse length mismatch on the same buffer");
+    }
     if let Ok(n) = rc {
         assert!(n <= data.len(), "C07 check accepted more than the input");
         let pre = &data[..n];
